@@ -45,7 +45,7 @@ def run(ctx, H):
                 sc, d, kind = S.script_mix(ctx)
                 cases.append(E.Case(e, p, "json" if K.is_json_doc(p) and ctx.rng.random() < 0.3 else "ov", sc, d, kind, k))
             if t[0] in ("option", "box", "cs"):
-                for p in [None, "1,2,,3", ",", "", "a,b", "300", "1,x,2", "true,false", "-1,+2", "+", "1,,"]:
+                for p in [None, "1,2,,3", ",", "", "a,b", "300", "1,x,2", "true,false", "-1,+2", "+", "1,,", " ", "a, ,b", "1, ,2", "1 ,2", " 1,2", "\t", "a,\n,b", "1,2 ", ",  ,", "\u00a0", "1,\u3000,2", "true, ,false", " , "]:
                     sc, d, kind = S.script_mix(ctx)
                     cases.append(E.Case(e, p, "ov", sc, d, kind, 0))
     S.run_spec_check(ctx, H, "c06", cases,
